@@ -156,6 +156,10 @@ def tee_bytes(sym, fmt, N, ragged, kind):
                 kw['vrepr'] = repr
             if sym.flag('lineterminator'):
                 kw['lineterminator'] = '\r\n'
+            if sym.flag('index_header'):
+                kw['index_header'] = True
+            if sym.flag('truncate'):
+                kw['truncate'] = 3
             teeview = petl.teehtml(table, a, **kw)
             list(teeview)
             petl.tohtml(table, b, **kw)
@@ -199,4 +203,7 @@ def jobs(tier):
 
                 out.append(dict(name='bytes/%s/%s/ragged=%d' % (fmt, kind, ragged), func='tee_bytes',
                                 params=dict(fmt=fmt, N=2 if q else 3, ragged=ragged, kind=kind), budget=B))
+    for name in ('cache-all', 'cache-1', 'cache-2', 'cache-3'):
+        out.append(dict(name='interleaved/%s' % name, module='props.c01', func='catalogue_view',
+                        params=dict(name=name, R=2, L=6, nits=2, nsym=0, renew0=True), budget=B, per_path=20))
     return out
